@@ -245,3 +245,61 @@ def run_swap_histories(root, tag, seed, n_hist, n_req):
         finally:
             sc.stop(); shutil.rmtree(d, ignore_errors=True)
     return {'requests': reqs, 'swaps': swaps, 'hits': hits, 'fails': fails, 'samples': samples}
+
+# ------------------------------------------------------------------------------------------------ direct mode under every option combination (C04)
+DM_SRC = '#include "h1.h"\n#include <h2.h>\n#include <sys.h>\nint f(int x) { return x * A + B + S + %d; }\n'
+
+def run_direct_mode_histories(root, tag, compiler, seed, n_hist, n_req):
+    """preprocessor-cache mode with random option combinations and include directories whose names contain digits and
+    spaces; edits of every header (same-size, size-changing, touch-only, delete+recreate, restored mtime), each request
+    compared with a direct compile. Edits of the -isystem header are skipped when skip_system_headers is on (documented)."""
+    rng = random.Random(seed); fails = []; reqs = hits = 0; samples = []; optcount = {}
+    for h in range(n_hist):
+        opts = {'use_preprocessor_cache_mode': True, 'file_stat_matches': rng.random() < 0.5, 'use_ctime_for_stat': rng.random() < 0.7,
+                'ignore_time_macros': False, 'skip_system_headers': rng.random() < 0.5, 'hash_working_directory': rng.random() < 0.7}
+        for k, v in opts.items():
+            if v: optcount[k] = optcount.get(k, 0) + 1
+        d = os.path.join(root, f'dm{h}'); shutil.rmtree(d, ignore_errors=True); w = os.path.join(d, 'w'); os.makedirs(w)
+        incdir = rng.choice(['inc1', 'v3', 'dir 3', 'x3y/sub', 'plain']); sysdir = rng.choice(['sysinc', 'sys3'])
+        os.makedirs(os.path.join(w, incdir)); os.makedirs(os.path.join(w, sysdir))
+        files = {'h1.h': '#define A 3\n', f'{incdir}/h2.h': '#define B 41\n', f'{sysdir}/sys.h': '#define S 500\n', 'main.c': DM_SRC % 1}
+        def write(rel, text, keep_mtime=False):
+            p = os.path.join(w, rel); st = os.stat(p) if keep_mtime and os.path.exists(p) else None
+            open(p, 'w').write(text); files[rel] = text
+            if st: os.utime(p, ns=(st.st_atime_ns, st.st_mtime_ns))
+        for k, v in files.items(): write(k, v)
+        # headers must be older than the compile start or direct mode is (correctly) not used
+        old = time.time() - 3600
+        for k in files: os.utime(os.path.join(w, k), (old, old))
+        log = os.path.join(d, 'cc.log'); cc = os.path.join(d, 'bin', os.path.basename(compiler)); os.makedirs(os.path.dirname(cc)); wrapper(cc, compiler, log)
+        sc = Sc(os.path.join(d, 'sc'), f'{tag}{h}'); sc.use_config(opts); sc.start(); trace = [f'options {opts} include dir {incdir!r} system dir {sysdir!r}']
+        argv = [cc, '-O0', f'-I{incdir}', '-isystem', sysdir, '-c', 'main.c', '-o', 'out.o']
+        try:
+            for i in range(n_req):
+                k = rng.randrange(10) if i else 9
+                targets = ['h1.h', f'{incdir}/h2.h'] + ([] if opts['skip_system_headers'] else [f'{sysdir}/sys.h'])
+                t = rng.choice(targets); macro = {'h1.h': 'A', f'{incdir}/h2.h': 'B', f'{sysdir}/sys.h': 'S'}[t]
+                if k == 0: write(t, f'#define {macro} {rng.randrange(10, 99)}\n'); note = f'edit {t} (same size)'
+                elif k == 1: write(t, f'#define {macro} {rng.randrange(100, 99999)}\n'); note = f'edit {t} (size change)'
+                elif k == 2: os.utime(os.path.join(w, t), None); note = f'touch {t}'
+                elif k == 3: txt = files[t]; os.remove(os.path.join(w, t)); write(t, f'#define {macro} {rng.randrange(10, 99)}\n'); note = f'delete and recreate {t}'
+                elif k == 4 and opts['use_ctime_for_stat']: write(t, f'#define {macro} {rng.randrange(10, 99)}\n', keep_mtime=True); note = f'edit {t} (same size, mtime restored)'
+                elif k == 5: write('main.c', DM_SRC % rng.randrange(9)); note = 'edit source'
+                elif k == 6: sc.stop(); sc.start(); note = 'restart'
+                else: note = 'no change'
+                if k in (0, 1, 3, 4): time.sleep(0.01)
+                out = os.path.join(w, 'out.o')
+                if os.path.exists(out): os.remove(out)
+                b = counts(sc.stats() or {})
+                r = sc.compile(argv, w); got = (r.returncode, r.stdout, r.stderr, file_state(out) and file_state(out)[0])
+                a = counts(sc.stats() or {}); cls = 'hit' if a.get('cache_hits', 0) > b.get('cache_hits', 0) else 'miss'
+                hits += cls == 'hit'
+                if os.path.exists(out): os.remove(out)
+                dr = subprocess.run(argv, cwd=w, capture_output=True); want = (dr.returncode, dr.stdout, dr.stderr, file_state(out) and file_state(out)[0])
+                reqs += 1; trace.append(f'{note} -> rc={got[0]} {cls}')
+                if got != want:
+                    fails.append({'kind': 'direct_mode_stale_result', 'detail': f'[{note}] result differs from the direct compile ({cls}); options {opts}, include dir {incdir!r}', 'ops': list(trace)}); break
+            if len(samples) < 2: samples.append(' ; '.join(trace[:6]))
+        finally:
+            sc.stop(); shutil.rmtree(d, ignore_errors=True)
+    return {'requests': reqs, 'hits': hits, 'options_on': optcount, 'fails': fails, 'samples': samples}
